@@ -1,6 +1,7 @@
 import VlsModel.Model.Enforcement
 import VlsModel.Gen.FnEnforce
 import VlsModel.Gen.FnSimpleState
+import VlsModel.Gen.FnChannelForceClose
 import VlsModel.Lemmas.FnGen
 import VlsModel.Lemmas.EnforcementFn
 import VlsModel.Lemmas.HandlerFn
@@ -304,5 +305,206 @@ example :
   decide
 
 end HandlerArms
+
+/-! ### Round 10: the force-close signing entry points themselves (`Gen/FnChannelForceClose.lean`)
+
+`Channel::sign_holder_commitment_tx_phase2` (channel.rs:1333) and `Channel::sign_holder_commitment_tx_phase2_redundant`
+(channel.rs:1490) are regenerated from the source on every run (targets `translate/fn_targets/ChannelForceClose.b1.json`;
+LDK's transaction building / signing and `Channel::persist` are declared externals, `persist()` as a function of the
+enforcement state it writes).  The clause of C02 they carry, stated on the generated bodies: **a holder signature leaves
+the function only after `channel_closed = true` has been set AND that very state went through `persist()`**; a store that
+refuses the write means no signature — on EVERY call, in particular on a retried call on a channel whose in-memory flag is
+already set (a write elided for "already closed" breaks these theorems: seeds C02-r5-2, C02-r7-1). -/
+section ForceClose
+open VlsModel.Gen.FnChannelForceClose (EnforcementState CommitmentInfo2 HTLCInfo2 HTLCOutputInCommitment ChannelPublicKeys ChannelSetup)
+
+theorem fc_bind_ok {α β : Type} {x : Rs.M α} {f : α → Rs.M β} {b : β} (h : x >>= f = .ok b) :
+    ∃ a, x = .ok a ∧ f a = .ok b := by
+  cases x with
+  | error e => cases h
+  | ok a => exact ⟨a, rfl, h⟩
+
+variable {InMemorySigner Signature Validator PublicKey TxCreationKeys PaymentHash CommitmentTransaction
+  HolderCommitmentTransaction ChainState : Type}
+
+/-- the generated point guard: a point is handed out only for `n ≤ next_holder_commit_num + 1` -/
+theorem C02_fn_force_close_point_guard (unchecked : Nat → PublicKey)
+    (self : Gen.FnChannelForceClose.Channel InMemorySigner) (n : Nat) (pt : PublicKey)
+    (h : Gen.FnChannelForceClose.Channel.get_per_commitment_point unchecked self n = .ok pt) :
+    n ≤ self.enforcement_state.next_holder_commit_num + 1 ∧ pt = unchecked n := by
+  unfold Gen.FnChannelForceClose.Channel.get_per_commitment_point at h
+  obtain ⟨t, ht, h⟩ := fc_bind_ok h
+  have htv : t = self.enforcement_state.next_holder_commit_num + 1 := by
+    unfold Rs.uadd at ht; split at ht
+    · cases ht; rfl
+    · cases ht
+  by_cases hg : n > t
+  · simp [hg, Rs.fail] at h
+  · simp only [hg, decide_false] at h
+    cases h
+    exact ⟨by omega, rfl⟩
+
+/-- **`sign_holder_commitment_tx_phase2`: no signature without the durable closed mark.**  If the generated body returns a
+    signature then (1) the guard `get_current_holder_commitment_info` accepted the number on the state as it was,
+    (2) the signature is LDK's for the transaction rebuilt from the STORED current commitment under that number,
+    (3) the returned channel is the old one with `channel_closed = true` and nothing else changed, and
+    (4) `persist()` was called on exactly that state and succeeded. -/
+theorem C02_fn_sign_holder_commitment_tx_phase2
+    (validator : Validator) (getCur : Validator → EnforcementState → Nat → Rs.M (CommitmentInfo2 PaymentHash))
+    (unchecked : Nat → PublicKey) (mkKeys : PublicKey → TxCreationKeys)
+    (mkTx : Nat → TxCreationKeys → Nat → Nat → Nat → List (HTLCOutputInCommitment PaymentHash) → CommitmentTransaction)
+    (dummies : CommitmentTransaction → List Signature) (dummy : Signature)
+    (pubkeys : InMemorySigner → ChannelPublicKeys PublicKey) (cpkeys : ChannelPublicKeys PublicKey)
+    (wrap : CommitmentTransaction → Signature → List Signature → PublicKey → PublicKey → HolderCommitmentTransaction)
+    (ldkSign : InMemorySigner → HolderCommitmentTransaction → Rs.M Signature)
+    (persist : EnforcementState → Rs.M Unit)
+    (self self' : Gen.FnChannelForceClose.Channel InMemorySigner) (n : Nat) (sig : Signature)
+    (h : Gen.FnChannelForceClose.Channel.sign_holder_commitment_tx_phase2 validator getCur unchecked mkKeys mkTx dummies dummy
+           pubkeys cpkeys wrap ldkSign persist self n = .ok (self', sig)) :
+    ∃ info2 htlcs,
+      getCur validator self.enforcement_state n = .ok info2 ∧
+      Gen.FnChannelForceClose.Channel.htlcs_info2_to_oic info2.offered_htlcs info2.received_htlcs = .ok htlcs ∧
+      n ≤ self.enforcement_state.next_holder_commit_num + 1 ∧
+      (let rtx := mkTx n (mkKeys (unchecked n))
+          (if Gen.FnChannelForceClose.ChannelSetup.is_zero_fee_htlc self.setup then 0 else info2.feerate_per_kw)
+          info2.to_broadcaster_value_sat info2.to_countersigner_value_sat htlcs
+       ldkSign self.keys (wrap rtx dummy (dummies rtx) (pubkeys self.keys).funding_pubkey cpkeys.funding_pubkey) = .ok sig) ∧
+      self' = { self with enforcement_state := { self.enforcement_state with channel_closed := true } } ∧
+      self'.enforcement_state.channel_closed = true ∧
+      persist self'.enforcement_state = .ok () := by
+  unfold Gen.FnChannelForceClose.Channel.sign_holder_commitment_tx_phase2 at h
+  obtain ⟨info2, hcur, h⟩ := fc_bind_ok h
+  obtain ⟨htlcs, hoic, h⟩ := fc_bind_ok h
+  obtain ⟨pt, hpt, h⟩ := fc_bind_ok h
+  obtain ⟨sg, hsig, h⟩ := fc_bind_ok h
+  obtain ⟨u, hper, h⟩ := fc_bind_ok h
+  obtain ⟨hle, hptv⟩ := C02_fn_force_close_point_guard unchecked self n pt hpt
+  cases h
+  subst hptv
+  exact ⟨info2, htlcs, hcur, hoic, hle, hsig, rfl, rfl, by cases u; exact hper⟩
+
+/-- a store that refuses the write of the closed state means no signature, whatever the in-memory flag was before
+    (the retry after a failed first attempt included) -/
+theorem C02_fn_sign_holder_phase2_no_signature_without_write
+    (validator : Validator) (getCur : Validator → EnforcementState → Nat → Rs.M (CommitmentInfo2 PaymentHash))
+    (unchecked : Nat → PublicKey) (mkKeys : PublicKey → TxCreationKeys)
+    (mkTx : Nat → TxCreationKeys → Nat → Nat → Nat → List (HTLCOutputInCommitment PaymentHash) → CommitmentTransaction)
+    (dummies : CommitmentTransaction → List Signature) (dummy : Signature)
+    (pubkeys : InMemorySigner → ChannelPublicKeys PublicKey) (cpkeys : ChannelPublicKeys PublicKey)
+    (wrap : CommitmentTransaction → Signature → List Signature → PublicKey → PublicKey → HolderCommitmentTransaction)
+    (ldkSign : InMemorySigner → HolderCommitmentTransaction → Rs.M Signature)
+    (persist : EnforcementState → Rs.M Unit)
+    (self : Gen.FnChannelForceClose.Channel InMemorySigner) (n : Nat)
+    (hrefuse : ∀ u, persist { self.enforcement_state with channel_closed := true } ≠ .ok u) :
+    ∀ r, Gen.FnChannelForceClose.Channel.sign_holder_commitment_tx_phase2 validator getCur unchecked mkKeys mkTx dummies dummy
+           pubkeys cpkeys wrap ldkSign persist self n ≠ .ok r := by
+  intro ⟨self', sig⟩ h
+  obtain ⟨_, _, _, _, _, _, hself, _, hper⟩ :=
+    C02_fn_sign_holder_commitment_tx_phase2 validator getCur unchecked mkKeys mkTx dummies dummy pubkeys cpkeys wrap ldkSign
+      persist self self' n sig h
+  subst hself
+  exact hrefuse () hper
+
+/-- **`sign_holder_commitment_tx_phase2_redundant`**: a signature only after the point guard, the content built from the
+    request passed `validate_holder_commitment_tx` on the state as it was, and the closed state was written. -/
+theorem C02_fn_sign_holder_commitment_tx_phase2_redundant
+    (unchecked : Nat → PublicKey)
+    (mkInfo : Nat → Nat → List (HTLCInfo2 PaymentHash) → List (HTLCInfo2 PaymentHash) → Nat → Rs.M (CommitmentInfo2 PaymentHash))
+    (validator : Validator) (chainState : ChainState)
+    (validateHolder : Validator → EnforcementState → Nat → PublicKey → ChannelSetup → ChainState → CommitmentInfo2 PaymentHash → Rs.M Unit)
+    (dummiesN : Nat → List Signature) (mkKeys : PublicKey → TxCreationKeys)
+    (mkTx : Nat → TxCreationKeys → Nat → Nat → Nat → List (HTLCOutputInCommitment PaymentHash) → CommitmentTransaction)
+    (dummy : Signature)
+    (pubkeys : InMemorySigner → ChannelPublicKeys PublicKey) (cpkeys : ChannelPublicKeys PublicKey)
+    (wrap : CommitmentTransaction → Signature → List Signature → PublicKey → PublicKey → HolderCommitmentTransaction)
+    (ldkSign : InMemorySigner → HolderCommitmentTransaction → Rs.M Signature)
+    (persist : EnforcementState → Rs.M Unit)
+    (self self' : Gen.FnChannelForceClose.Channel InMemorySigner) (n feerate toHolder toCp : Nat)
+    (off recv : List (HTLCInfo2 PaymentHash)) (sig : Signature)
+    (h : Gen.FnChannelForceClose.Channel.sign_holder_commitment_tx_phase2_redundant unchecked mkInfo validator chainState
+           validateHolder dummiesN mkKeys mkTx dummy pubkeys cpkeys wrap ldkSign persist self n feerate toHolder toCp off recv
+         = .ok (self', sig)) :
+    ∃ info2 htlcs,
+      n ≤ self.enforcement_state.next_holder_commit_num + 1 ∧
+      mkInfo toHolder toCp off recv feerate = .ok info2 ∧
+      validateHolder validator self.enforcement_state n (unchecked n) self.setup chainState info2 = .ok () ∧
+      Gen.FnChannelForceClose.Channel.htlcs_info2_to_oic off recv = .ok htlcs ∧
+      (let tx := mkTx n (mkKeys (unchecked n))
+          (if Gen.FnChannelForceClose.ChannelSetup.is_zero_fee_htlc self.setup then 0 else feerate) toHolder toCp htlcs
+       ldkSign self.keys (wrap tx dummy (dummiesN htlcs.length) (pubkeys self.keys).funding_pubkey cpkeys.funding_pubkey) = .ok sig) ∧
+      self' = { self with enforcement_state := { self.enforcement_state with channel_closed := true } } ∧
+      self'.enforcement_state.channel_closed = true ∧
+      persist self'.enforcement_state = .ok () := by
+  unfold Gen.FnChannelForceClose.Channel.sign_holder_commitment_tx_phase2_redundant at h
+  obtain ⟨pt, hpt, h⟩ := fc_bind_ok h
+  obtain ⟨info2, hinfo, h⟩ := fc_bind_ok h
+  obtain ⟨u0, hval, h⟩ := fc_bind_ok h
+  obtain ⟨htlcs, hoic, h⟩ := fc_bind_ok h
+  obtain ⟨sg, hsig, h⟩ := fc_bind_ok h
+  obtain ⟨u, hper, h⟩ := fc_bind_ok h
+  obtain ⟨hle, hptv⟩ := C02_fn_force_close_point_guard unchecked self n pt hpt
+  cases h
+  subst hptv
+  exact ⟨info2, htlcs, hle, hinfo, by cases u0; exact hval, hoic, hsig, rfl, rfl, by cases u; exact hper⟩
+
+theorem C02_fn_sign_holder_redundant_no_signature_without_write
+    (unchecked : Nat → PublicKey)
+    (mkInfo : Nat → Nat → List (HTLCInfo2 PaymentHash) → List (HTLCInfo2 PaymentHash) → Nat → Rs.M (CommitmentInfo2 PaymentHash))
+    (validator : Validator) (chainState : ChainState)
+    (validateHolder : Validator → EnforcementState → Nat → PublicKey → ChannelSetup → ChainState → CommitmentInfo2 PaymentHash → Rs.M Unit)
+    (dummiesN : Nat → List Signature) (mkKeys : PublicKey → TxCreationKeys)
+    (mkTx : Nat → TxCreationKeys → Nat → Nat → Nat → List (HTLCOutputInCommitment PaymentHash) → CommitmentTransaction)
+    (dummy : Signature)
+    (pubkeys : InMemorySigner → ChannelPublicKeys PublicKey) (cpkeys : ChannelPublicKeys PublicKey)
+    (wrap : CommitmentTransaction → Signature → List Signature → PublicKey → PublicKey → HolderCommitmentTransaction)
+    (ldkSign : InMemorySigner → HolderCommitmentTransaction → Rs.M Signature)
+    (persist : EnforcementState → Rs.M Unit)
+    (self : Gen.FnChannelForceClose.Channel InMemorySigner) (n feerate toHolder toCp : Nat)
+    (off recv : List (HTLCInfo2 PaymentHash))
+    (hrefuse : ∀ u, persist { self.enforcement_state with channel_closed := true } ≠ .ok u) :
+    ∀ r, Gen.FnChannelForceClose.Channel.sign_holder_commitment_tx_phase2_redundant unchecked mkInfo validator chainState
+           validateHolder dummiesN mkKeys mkTx dummy pubkeys cpkeys wrap ldkSign persist self n feerate toHolder toCp off recv
+         ≠ .ok r := by
+  intro ⟨self', sig⟩ h
+  obtain ⟨_, _, _, _, _, _, _, hself, _, hper⟩ :=
+    C02_fn_sign_holder_commitment_tx_phase2_redundant unchecked mkInfo validator chainState validateHolder dummiesN mkKeys mkTx
+      dummy pubkeys cpkeys wrap ldkSign persist self self' n feerate toHolder toCp off recv sig h
+  subst hself
+  exact hrefuse () hper
+
+/-- the hand-written model agrees on the write pattern: a signature of `signHolder` / `signRedundant` comes with
+    `closed = true` in the new state and `persisted = true` -/
+theorem C02_fn_model_sign_closes_durably (c : Chan) (n : Nat) (h : (signHolder c n).out.signed ≠ none) :
+    (signHolder c n).c.closed = true ∧ (signHolder c n).persisted = true := by
+  unfold signHolder at h ⊢
+  by_cases h0 : n + 1 > U64.MAX
+  · simp [h0, fail] at h
+  · by_cases h1 : n + 1 ≠ c.next
+    · simp [h0, h1, fail] at h
+    · cases hc : c.cur
+      · simp [h0, h1, hc, fail] at h
+      · simp [h0, h1]
+
+/-- non-vacuity: with a guard that accepts, a signer that signs and a store that writes, commitment 0 of a channel at
+    `next = 1` is signed, the flag is set and written; with a store that refuses, the same request returns no signature -/
+example :
+    let self : Gen.FnChannelForceClose.Channel Nat :=
+      { keys := 7, enforcement_state := { next_holder_commit_num := 1, channel_closed := false }, setup := { commitment_type := .Anchors } }
+    let info : CommitmentInfo2 Nat :=
+      { to_countersigner_value_sat := 1, to_broadcaster_value_sat := 2, offered_htlcs := [], received_htlcs := [], feerate_per_kw := 253 }
+    let run (persist : EnforcementState → Rs.M Unit) :=
+      Gen.FnChannelForceClose.Channel.sign_holder_commitment_tx_phase2 (Signature := Nat) (PublicKey := Nat) (TxCreationKeys := Nat)
+        (CommitmentTransaction := Nat) (HolderCommitmentTransaction := Nat) ()
+        (fun _ es n => if n + 1 = es.next_holder_commit_num then .ok info else Rs.fail "policy-other")
+        (fun n => n) id (fun n _ _ _ _ _ => n) (fun _ => []) 0 (fun _ => ⟨1⟩) ⟨2⟩ (fun tx _ _ _ _ => tx) (fun _ tx => .ok (100 + tx))
+        persist self 0
+    (run (fun es => if es.channel_closed then .ok () else Rs.panic)
+        = .ok ({ self with enforcement_state := { next_holder_commit_num := 1, channel_closed := true } }, 100))
+    ∧ (∀ r, run (fun _ => Rs.fail "internal") ≠ .ok r) := by
+  refine ⟨by rfl, ?_⟩
+  intro r
+  exact C02_fn_sign_holder_phase2_no_signature_without_write _ _ _ _ _ _ _ _ _ _ _ _ _ _ (by intro u; simp [Rs.fail]) r
+
+end ForceClose
 
 end VlsModel.Props.C02Fn
